@@ -58,6 +58,14 @@ def jobs(pid, tier, engine):
     return out
 
 
+def shard_note():
+    try:
+        eng = os.path.join(os.path.dirname(os.path.dirname(os.path.abspath(__file__))), "harness", "target", "release", "engine")
+        return subprocess.check_output([eng, "shards"], text=True).strip()
+    except Exception as e:  # informational only
+        return f"unavailable: {e}"
+
+
 def evidence(pid, tier, records):
     cov = {}
     configs = [v for (e, k, v) in records if k == "CONFIG"]
@@ -187,6 +195,9 @@ def evidence(pid, tier, records):
             "distinct_observations_total": sum(d["distinct_observations"] for d in drivers),
             "drivers_with_a_single_outcome": len(single),
             "exec_caps_hit": [d["label"] for d in drivers if d.get("exec_cap_hit")],
+            "cold_start_drivers": sum(1 for d in drivers if d["label"].startswith("COLD:")),
+            "cold_start_child_processes": sum(d["schedules"] for d in drivers if d["label"].startswith("COLD:")),
+            "dashmap_shard_of_driver_keys": shard_note(),
         }
         cov["schedules"] = sched
         cov["preemption_bound_completed"] = cov["thrx"]["preemption_bound_completed"]
